@@ -90,6 +90,7 @@ class VT:
     __slots__ = (
         "tid", "name", "sem", "state", "pred", "deadline", "why", "done", "obj",
         "pending_exc", "os_ident", "idle", "started", "abort_count", "finished_evt",
+        "frozen", "npoints", "freeze_at",
     )
 
     def __init__(self, tid, name):
@@ -109,6 +110,11 @@ class VT:
         self.started = False
         self.abort_count = 0
         self.finished_evt = _rt.Event()
+        # harness control: a frozen thread is not schedulable until thawed; freeze_at = k freezes the thread at
+        # its k-th own scheduling point (used to land an environment event at every point inside one call)
+        self.frozen = False
+        self.npoints = 0
+        self.freeze_at = None
 
     def __repr__(self):
         return "<VT %d %s %s %s>" % (self.tid, self.name, self.state, self.why)
@@ -243,7 +249,7 @@ class Scheduler:
         out = []
         nowv = self.now
         for t in self.threads:
-            if t.done or not t.started:
+            if t.done or not t.started or t.frozen:
                 continue
             if t.state == "runnable":
                 out.append(t)
@@ -257,7 +263,7 @@ class Scheduler:
     def _next_deadline(self):
         d = None
         for t in self.threads:
-            if t.done or t.state != "blocked" or t.deadline is None:
+            if t.done or t.state != "blocked" or t.deadline is None or t.frozen:
                 continue
             if d is None or t.deadline < d:
                 d = t.deadline
@@ -277,6 +283,14 @@ class Scheduler:
             if en:
                 break
             d = self._next_deadline()
+            frozen = [t for t in self.threads if t.frozen and not t.done]
+            if frozen and (d is None or (self.horizon is not None and d > self.horizon)):
+                # a held thread is needed for progress (it stands inside a critical section somebody is waiting
+                # for): let it go on - holding it any longer would manufacture a deadlock
+                for t in frozen:
+                    t.frozen = False
+                self.auto_thawed = getattr(self, "auto_thawed", 0) + len(frozen)
+                continue
             if d is None:
                 self.deadlock_info = [
                     (t.tid, t.name, t.why) for t in self.threads if not t.done and t.started
@@ -370,7 +384,18 @@ class Scheduler:
         if self.record_trace and why is not None:
             self.trace.append((me.tid, why))
         me.state = "runnable"
+        self._count_point(me)
         self._handoff(me)
+
+    def _count_point(self, me):
+        me.npoints += 1
+        if me.freeze_at is not None and me.npoints >= me.freeze_at and not me.frozen:
+            me.frozen = True
+            me.freeze_at = None
+
+    def thaw(self, t):
+        """Make a frozen virtual thread schedulable again."""
+        t.frozen = False
 
     def block(self, pred, timeout=None, why=None):
         """Block the running thread until pred() holds or timeout (virtual seconds) expires.
@@ -389,6 +414,7 @@ class Scheduler:
             # code that re-arms with `timeout - elapsed` would otherwise spin at a frozen clock)
             me.deadline = math.nextafter(self.now, math.inf)
         me.why = why
+        self._count_point(me)
         try:
             self._handoff(me)
         finally:
@@ -438,6 +464,7 @@ class Scheduler:
                 if self.record_trace:
                     self.trace.append((me.tid, "L%s:%d" % (frame.f_code.co_name, frame.f_lineno)))
                 me.state = "runnable"
+                self._count_point(me)
                 self._handoff(me)
         return self._local_trace
 
